@@ -16,6 +16,7 @@ import (
 	"os"
 	"sort"
 	"strconv"
+	"strings"
 	"testing"
 
 	apps "github.com/pingcap/advanced-statefulset/client/apis/apps/v1"
@@ -39,15 +40,21 @@ type rcControl struct {
 }
 
 func (c *rcControl) do(verb string, pod *v1.Pod) error {
-	c.calls = append(c.calls, rcCall{verb, pod, getOrdinal(pod)})
+	c.calls = append(c.calls, rcCall{verb, pod, rcOrd(pod)})
 	if c.failAt == len(c.calls) {
 		return fmt.Errorf("injected failure")
 	}
 	return nil
 }
-func (c *rcControl) CreateStatefulPod(set *apps.StatefulSet, pod *v1.Pod) error { return c.do("create", pod) }
-func (c *rcControl) UpdateStatefulPod(set *apps.StatefulSet, pod *v1.Pod) error { return c.do("update", pod) }
-func (c *rcControl) DeleteStatefulPod(set *apps.StatefulSet, pod *v1.Pod) error { return c.do("delete", pod) }
+func (c *rcControl) CreateStatefulPod(set *apps.StatefulSet, pod *v1.Pod) error {
+	return c.do("create", pod)
+}
+func (c *rcControl) UpdateStatefulPod(set *apps.StatefulSet, pod *v1.Pod) error {
+	return c.do("update", pod)
+}
+func (c *rcControl) DeleteStatefulPod(set *apps.StatefulSet, pod *v1.Pod) error {
+	return c.do("delete", pod)
+}
 
 type rcPod struct {
 	Ord   int    `json:"ordinal"`
@@ -56,17 +63,49 @@ type rcPod struct {
 }
 
 type rcCase struct {
-	Replicas  int32    `json:"replicas"`
-	Slots     []int32  `json:"delete_slots"`
-	Policy    string   `json:"pod_management_policy"`
-	Strategy  string   `json:"update_strategy"`
-	Partition *int32   `json:"partition"`
-	HasRU     bool     `json:"rolling_update_block"`
-	Deleting  bool     `json:"deleting"`
-	Pods      []rcPod  `json:"pods"`
-	Failure   string   `json:"failure,omitempty"`
-	Calls     []string `json:"calls,omitempty"`
+	Replicas        int32    `json:"replicas"`
+	Slots           []int32  `json:"delete_slots"`
+	Policy          string   `json:"pod_management_policy"`
+	Strategy        string   `json:"update_strategy"`
+	Partition       *int32   `json:"partition"`
+	HasRU           bool     `json:"rolling_update_block"`
+	Deleting        bool     `json:"deleting"`
+	RolloutInStatus bool     `json:"status_revisions_differ"`
+	Pods            []rcPod  `json:"pods"`
+	Failure         string   `json:"failure,omitempty"`
+	Calls           []string `json:"calls,omitempty"`
 }
+
+// The oracle's own pod predicates (independent of the functions under test, so that a change to
+// getOrdinal, isHealthy, ... cannot shift the oracle with it).
+func rcOrd(p *v1.Pod) int {
+	k := strings.LastIndex(p.Name, "-")
+	if k < 0 {
+		return -1
+	}
+	n, err := strconv.ParseInt(p.Name[k+1:], 10, 32)
+	if err != nil || n < 0 {
+		return -1
+	}
+	return int(n)
+}
+func rcReady(p *v1.Pod) bool {
+	if p.Status.Phase != v1.PodRunning {
+		return false
+	}
+	for _, c := range p.Status.Conditions {
+		if c.Type == v1.PodReady {
+			return c.Status == v1.ConditionTrue
+		}
+	}
+	return false
+}
+func rcTerminating(p *v1.Pod) bool { return p.DeletionTimestamp != nil }
+func rcHealthy(p *v1.Pod) bool     { return rcReady(p) && !rcTerminating(p) }
+func rcFailed(p *v1.Pod) bool      { return p.Status.Phase == v1.PodFailed }
+func rcSucceeded(p *v1.Pod) bool   { return p.Status.Phase == v1.PodSucceeded }
+func rcCreated(p *v1.Pod) bool     { return p.Status.Phase != "" }
+func rcRev(p *v1.Pod) string       { return p.Labels["controller-revision-hash"] }
 
 func rcDesired(r int32, slots sets.Int32) map[int]bool {
 	out := map[int]bool{}
@@ -93,6 +132,10 @@ func rcRun(c *rcCase) (status *apps.StatefulSetStatus, ctl *rcControl, snapshot 
 		set.DeletionTimestamp = &now
 	}
 	cur = newRevisionOrDie(set, 1)
+	if c.RolloutInStatus {
+		set.Status.CurrentRevision = "rev-a"
+		set.Status.UpdateRevision = "rev-b"
+	}
 	set2 := set.DeepCopy()
 	set2.Spec.Template.Spec.Containers[0].Image = "changed"
 	upd = newRevisionOrDie(set2, 2)
@@ -121,6 +164,8 @@ func rcRun(c *rcCase) (status *apps.StatefulSetStatus, ctl *rcControl, snapshot 
 			pod.Status.Conditions = []v1.PodCondition{ready}
 			now := metav1.Now()
 			pod.DeletionTimestamp = &now
+		case "unknown":
+			pod.Status.Phase = v1.PodUnknown
 		}
 		snapshot = append(snapshot, pod)
 	}
@@ -151,10 +196,10 @@ func rcJudge(prop string, c *rcCase) string {
 	snapAt := map[int]*v1.Pod{}
 	for _, p := range snap {
 		inSnap[p] = true
-		snapAt[getOrdinal(p)] = p
+		snapAt[rcOrd(p)] = p
 	}
-	condemned := func(p *v1.Pod) bool { return inSnap[p] && getOrdinal(p) >= 0 && !desired[getOrdinal(p)] }
-	replaceable := func(p *v1.Pod) bool { return inSnap[p] && desired[getOrdinal(p)] && (isFailed(p) || isSucceeded(p)) }
+	condemned := func(p *v1.Pod) bool { return inSnap[p] && rcOrd(p) >= 0 && !desired[rcOrd(p)] }
+	replaceable := func(p *v1.Pod) bool { return inSnap[p] && desired[rcOrd(p)] && (rcFailed(p) || rcSucceeded(p)) }
 	partition := 0
 	if c.HasRU && c.Partition != nil {
 		partition = int(*c.Partition)
@@ -172,7 +217,7 @@ func rcJudge(prop string, c *rcCase) string {
 		switch call.Verb {
 		case "delete":
 			p := call.Pod
-			outdated := c.Strategy == "RollingUpdate" && call.Ord >= partition && getPodRevision(p) != upd.Name
+			outdated := c.Strategy == "RollingUpdate" && call.Ord >= partition && rcRev(p) != upd.Name
 			switch prop {
 			case "C03":
 				if !condemned(p) && !replaceable(p) && !outdated {
@@ -185,12 +230,12 @@ func rcJudge(prop string, c *rcCase) string {
 			case "C05":
 				if monotonic && condemned(p) {
 					for o := range desired {
-						if q := snapAt[o]; q == nil || !isRunningAndReady(q) {
+						if q := snapAt[o]; q == nil || !rcReady(q) {
 							return fmt.Sprintf("scale-in delete of %s while desired ordinal %d is not Running and Ready", p.Name, o)
 						}
 					}
 					for _, q := range snap {
-						if condemned(q) && getOrdinal(q) > call.Ord {
+						if condemned(q) && rcOrd(q) > call.Ord {
 							return fmt.Sprintf("scale-in delete of %s while condemned pod %s with a higher ordinal is still present", p.Name, q.Name)
 						}
 					}
@@ -202,7 +247,7 @@ func rcJudge(prop string, c *rcCase) string {
 						}
 					}
 					for o := range desired {
-						if q := snapAt[o]; o != call.Ord && (q == nil || !isHealthy(q)) {
+						if q := snapAt[o]; o != call.Ord && (q == nil || !rcHealthy(q)) {
 							return fmt.Sprintf("update delete of %s while desired ordinal %d is not healthy", p.Name, o)
 						}
 					}
@@ -217,7 +262,7 @@ func rcJudge(prop string, c *rcCase) string {
 					}
 					for o := range desired {
 						if o > call.Ord {
-							if q := snapAt[o]; q == nil || getPodRevision(q) != upd.Name || !isHealthy(q) {
+							if q := snapAt[o]; q == nil || rcRev(q) != upd.Name || !rcHealthy(q) {
 								return fmt.Sprintf("pod %s deleted for update while higher desired ordinal %d is not updated and healthy", p.Name, o)
 							}
 						}
@@ -250,7 +295,7 @@ func rcJudge(prop string, c *rcCase) string {
 				if monotonic {
 					for o := range desired {
 						if o < call.Ord {
-							if q := snapAt[o]; q == nil || !isHealthy(q) {
+							if q := snapAt[o]; q == nil || !rcHealthy(q) {
 								return fmt.Sprintf("create at ordinal %d while lower desired ordinal %d is not healthy", call.Ord, o)
 							}
 						}
@@ -262,8 +307,8 @@ func rcJudge(prop string, c *rcCase) string {
 					if call.Ord < partition {
 						want = cur.Name
 					}
-					if getPodRevision(p) != want {
-						return fmt.Sprintf("pod created at ordinal %d (partition %d) carries revision %q, want %q", call.Ord, partition, getPodRevision(p), want)
+					if rcRev(p) != want {
+						return fmt.Sprintf("pod created at ordinal %d (partition %d) carries revision %q, want %q", call.Ord, partition, rcRev(p), want)
 					}
 				}
 			}
@@ -301,7 +346,7 @@ func rcJudge(prop string, c *rcCase) string {
 			}
 		}
 		for _, q := range snap {
-			if condemned(q) && !isTerminating(q) {
+			if condemned(q) && !rcTerminating(q) {
 				found := false
 				for _, call := range ctl.calls {
 					if call.Verb == "delete" && call.Pod == q {
@@ -326,14 +371,14 @@ func rcJudge(prop string, c *rcCase) string {
 			var n, ready, curN, updN int32
 			for _, p := range snap {
 				n++
-				if isRunningAndReady(p) {
+				if rcReady(p) {
 					ready++
 				}
-				if isCreated(p) && !isTerminating(p) {
-					if getPodRevision(p) == cur.Name {
+				if rcCreated(p) && !rcTerminating(p) {
+					if rcRev(p) == cur.Name {
 						curN++
 					}
-					if getPodRevision(p) == upd.Name {
+					if rcRev(p) == upd.Name {
 						updN++
 					}
 				}
@@ -357,8 +402,9 @@ func rcGen(rng *rand.Rand, prop string) *rcCase {
 	c.Policy = []string{"OrderedReady", "Parallel"}[rng.Intn(2)]
 	c.Strategy = []string{"RollingUpdate", "RollingUpdate", "OnDelete"}[rng.Intn(3)]
 	c.HasRU = rng.Intn(3) != 0
-	p := int32([]int{0, 0, 1, 2, 5}[rng.Intn(5)])
+	p := int32([]int{0, 0, 1, 2, 3, 4, 5}[rng.Intn(7)])
 	c.Partition = &p
+	c.RolloutInStatus = rng.Intn(4) == 0
 	if prop == "C15" {
 		// everything the CRD admits: unknown strings, nil and negative partitions
 		c.Strategy = []string{"RollingUpdate", "OnDelete", "Foo", ""}[rng.Intn(4)]
@@ -373,14 +419,29 @@ func rcGen(rng *rand.Rand, prop string) *rcCase {
 	}
 	c.Deleting = rng.Intn(12) == 0
 	ordinals := []int{0, 1, 2, 3, 4, 5}
+	if rng.Intn(4) == 0 {
+		// a population that crosses ordinal 10 (two-digit ordinals sort differently as strings)
+		c.Replicas = int32(8 + rng.Intn(3))
+		ordinals = []int{0, 1, 2, 3, 4, 5, 6, 7, 8, 9, 10, 11, 12}
+	}
 	if prop == "C15" {
 		ordinals = append(ordinals, math.MaxInt32)
+	}
+	if rng.Intn(8) == 0 {
+		// directed: a healthy set that only has to scale in across the 9/10 boundary
+		c.Replicas = int32(7 + rng.Intn(3))
+		c.Slots = nil
+		c.Deleting = false
+		for o := 0; o <= 12; o++ {
+			c.Pods = append(c.Pods, rcPod{o, "healthy", "update"})
+		}
+		return c
 	}
 	for _, o := range ordinals {
 		if rng.Intn(3) == 0 {
 			continue
 		}
-		st := []string{"healthy", "healthy", "healthy", "healthy", "pending", "failed", "succeeded", "terminating", "unready"}[rng.Intn(9)]
+		st := []string{"healthy", "healthy", "healthy", "healthy", "healthy", "healthy", "pending", "failed", "succeeded", "terminating", "unready", "unknown"}[rng.Intn(12)]
 		rv := []string{"current", "update", "update", "third"}[rng.Intn(4)]
 		c.Pods = append(c.Pods, rcPod{o, st, rv})
 	}
@@ -423,6 +484,6 @@ func TestReplayReconcile(t *testing.T) {
 		found++
 	}
 	if found == 0 {
-		fmt.Printf("NOT-REPRODUCED bounded search: %d seeded cases (replicas 0..3, slots within {0,1,2,4}, pods at ordinals 0..5, both policies, strategies, partitions)\n", n)
+		fmt.Printf("NOT-REPRODUCED bounded search: %d seeded cases (replicas 0..3 or 8..10, slots within {0,1,2,4}, pods at ordinals 0..5 or 0..12, seven pod states, both policies, strategies, partitions 0..5)\n", n)
 	}
 }
